@@ -18,6 +18,7 @@ from entity_query_language.utils import All
 _installed = False
 PROBES_ON = False
 SHADOW_ON = False
+SHADOW_JUDGE_SIBLINGS = False    # judge retrievals whose lookup path crosses a mixed wildcard/concrete level (KF-C20-1)
 _models: Dict[int, Any] = {}     # id(cache) -> (cache, ShadowModel); the cache is kept alive by the tuple
 
 
@@ -182,6 +183,8 @@ def install():
         sim.counters["probe:engine_retrieve_judged"] += 1
         if sib:
             sim.counters["probe:engine_sibling_level_on_lookup_path"] += 1
+            if not SHADOW_JUDGE_SIBLINGS:
+                return
         if sorted(got) != want:
             sim.violate("engine-retrieve", {"lookup": {k: v for k, v in l.items() if k in self.keys},
                                             "got": sorted(got), "want": want, "keys": m.keys,
